@@ -10,7 +10,7 @@
   tensor-lifting fact of DESIGN §7; the correspondence run additionally checks it against a dense simulator, n ≤ 5.)
 -/
 import GraphiqModel.Proofs.Tableau
-import GraphiqModel.Proofs.HilbertMeasure
+import GraphiqModel.Proofs.HilbertTab
 import GraphiqModel.Proofs.HilbertKron
 namespace Graphiq.C07
 open Graphiq Graphiq.PRow Graphiq.Tab
@@ -491,6 +491,20 @@ theorem measurement_deterministic_is_projection (t : Tab) (hv : t.Valid) (hr : t
 /-- reality of the stabilizer rows holds for `CliffordTableau(n)` and is kept by every gate -/
 theorem stabilizer_rows_stay_real (n : Nat) (t : Tab) (g : Gate) (hr : t.StabReal) :
     (Tab.ket0 n).StabReal ∧ (t.map g.act).StabReal := ⟨ket0_stabReal n, gate_stabReal t g hr⟩
+
+/-- **The gate operations of the Clifford-tableau API are unitary evolution of the state.**  For every gate `g` of
+    `run_circuit` (`t.map g.act` is `hGate`, `sGate`, `sdgGate`, `xGate`, `yGate`, `zGate`, `cnotGate`, `czGate` by
+    definition): `U_g ρ(t) U_g† = ρ(t after the gate)`; and `swap_gate` is conjugation by the permutation matrix that
+    exchanges the two bits. -/
+theorem tableau_gate_is_unitary_evolution (t : Tab) (g : Gate) (hg : g.WF t.n) (a b : Nat) (ha : a < t.n) (hb : b < t.n) :
+    gateMat t.n g * rho t.n (STab.ofTab t) * (gateMat t.n g)ᴴ = rho t.n (STab.ofTab (t.map g.act)) ∧
+    swapMat t.n a b * rho t.n (STab.ofTab t) * (swapMat t.n a b)ᴴ = rho t.n (STab.ofTab (t.swapGate a b)) ∧
+    swapMat t.n a b * (swapMat t.n a b)ᴴ = 1 ∧
+    (∀ p, swapMat t.n a b * pauliMat t.n p * (swapMat t.n a b)ᴴ = pauliMat t.n (PRow.swap a b p)) :=
+  ⟨rho_tab_gate t g hg, rho_tab_swap t a b ha hb, (swap_unitary t.n a b ha hb).1, swap_conj t.n a b ha hb⟩
+
+example (t : Tab) (q c tg : Nat) : t.map (Gate.H q).act = t.hGate q ∧ t.map (Gate.P q).act = t.sGate q ∧
+    t.map (Gate.CNOT c tg).act = t.cnotGate c tg ∧ t.map (Gate.CZ c tg).act = t.czGate c tg := ⟨rfl, rfl, rfl, rfl⟩
 
 /-! non-vacuity: the GHZ tableau `ghz3` of §5 (valid, signs −XXX, ZZI, −IZZ) -/
 
